@@ -470,6 +470,15 @@ Proof.
     destruct Hin.
 Qed.
 
+(* The bareTemplate scanner is never called: whenever it is the current scanner the
+   call stack is empty (it is the entry scanner of template mode, at its top
+   level).  This is the `mode == scanTemplate && len(stack) == 0` of scanTokens'
+   lone-CR recovery, which HclLex.v states as the rule [m_lone_cr] of [rules_bare]. *)
+Lemma bare_is_top_level (st : hstate) : hinv st -> l_cur st = MBare -> l_stack st = [].
+Proof.
+  intros (W & _) E. rewrite E in W. inversion W; subst; try discriminate; reflexivity.
+Qed.
+
 Lemma hinv_init (m0 : hmode) : m0 = MMain \/ m0 = MBare \/ m0 = MIdentOnly -> hinv (init_state m0).
 Proof.
   intro H. unfold hinv, init_state. cbn. repeat split; [constructor; exact H|].
